@@ -116,7 +116,7 @@ static int rf_close(const rforest *f, int alg, rnode *root) {
 /* The runner reads the shards' output pipes one after the other; a shard that prints more than the
  * pipe buffer (64 KiB) blocks until its turn. The same few signatures occur in thousands of cases
  * here, so only the first cases of a signature (per process) carry the full detail text. */
-static int g_own_process = 0;
+static int g_own_process = 0, g_silent = 0;
 static int fail_full(const char *sig) {
 	static struct { char sig[64]; int n; } tab[24];
 	int i;
@@ -128,7 +128,10 @@ static int fail_full(const char *sig) {
 	}
 	return 0;
 }
-#define FAIL(sig, ...) do { if (fail_full(sig)) vf_fail(sig, __VA_ARGS__); else vf_fail(sig, "(detail: replay the case)"); } while (0)
+#define FAIL(sig, ...) do { if (g_silent) break; if (fail_full(sig)) vf_fail(sig, __VA_ARGS__); else vf_fail(sig, "(detail: replay the case)"); } while (0)
+#define OUTCOME(...) do { if (!g_silent) vf_outcome(__VA_ARGS__); } while (0)
+#define COUNT(k, n) do { if (!g_silent) vf_count(k, n); } while (0)
+#define VMAX(k, n) do { if (!g_silent) vf_max(k, n); } while (0)
 
 #define MAXLEAVES 66
 typedef struct { int level; int meta; } leafspec;
@@ -249,10 +252,10 @@ static void check_proof(const seqstate *st, int i, const unsigned char *root, si
 	size_t ol = 0, nl, k;
 	int olv = -1, rr, res;
 	res = KSI_TreeLeafHandle_getAggregationChain(st->h[i], &c);
-	vf_count("impl_calls", 1);
+	COUNT("impl_calls", 1);
 	if (res != KSI_OK || c == NULL) {
 		FAIL("chain-extract-failed", "leaf #%d (level %d, %s): getAggregationChain returned 0x%x", i, st->sp[i].level, st->sp[i].meta ? "metadata" : "hash", res);
-		vf_outcome("proof:EXTRACT-FAILED");
+		OUTCOME("proof:EXTRACT-FAILED");
 		goto done;
 	}
 	KSI_AggregationHashChain_getAggrHashId(c, &aid);
@@ -271,14 +274,14 @@ static void check_proof(const seqstate *st, int i, const unsigned char *root, si
 	rr = ref_chain_aggregate(st->alg, st->leaf[i].b, st->leaf[i].n, st->sp[i].level, links, nl, out, &ol, &olv);
 	if (rr != 0) {
 		FAIL("proof-mismatch", "leaf #%d (level %d): extracted chain of %zu links is not computable by the chain formula (level leaves 0..255 / correction > 255)", i, st->sp[i].level, nl);
-		vf_outcome("proof:MISMATCH");
+		OUTCOME("proof:MISMATCH");
 	} else if (olv != root_level || ol != root_len || memcmp(out, root, ol) != 0) {
 		FAIL("proof-mismatch", "leaf #%d (level %d, %zu links): chain recomputes level %d root %s, builder root level %d %s", i, st->sp[i].level, nl, olv, vf_hex(out, ol), root_level, vf_hex(root, root_len));
-		vf_outcome("proof:MISMATCH");
+		OUTCOME("proof:MISMATCH");
 	} else {
-		vf_outcome(st->sp[i].meta ? "proof:ok-metadata-leaf" : "proof:ok");
-		vf_count("proofs_verified", 1);
-		vf_max("max_chain_links", (long)nl);
+		OUTCOME(st->sp[i].meta ? "proof:ok-metadata-leaf" : "proof:ok");
+		COUNT("proofs_verified", 1);
+		VMAX("max_chain_links", (long)nl);
 	}
 	vf_obs("p%d:%zu:%d", i, nl, olv);
 done:
@@ -318,33 +321,33 @@ static void seq_body(const leafspec *sp, int n, int maxlevel, int alg, int leaf_
 			if (KSI_DataHash_fromImprint(ctx, st.leaf[i].b, st.leaf[i].n, &st.dh[i]) != KSI_OK) vf_harness_error("KSI_DataHash_fromImprint");
 			res = KSI_TreeBuilder_addDataHash(b, st.dh[i], lvl, &st.h[i]);
 		}
-		vf_count("impl_calls", 1);
+		COUNT("impl_calls", 1);
 		ok = (res == KSI_OK);
 		vf_obs("a%d:%d", i, ok);
 		if (ok && st.h[i] == NULL) FAIL("no-handle", "leaf #%d accepted but no handle returned", i);
 		if (!ok && st.h[i] != NULL) FAIL("handle-on-refusal", "leaf #%d refused (0x%x) but a handle was returned", i, res);
 		switch (exp) {
 			case E_ACCEPT:
-				if (ok) vf_outcome("leaf:accepted");
+				if (ok) OUTCOME("leaf:accepted");
 				else {
-					vf_outcome("leaf:VALID-REFUSED");
+					OUTCOME("leaf:VALID-REFUSED");
 					FAIL("valid-leaf-refused", "leaf #%d (level %d): root level after adding would be %d (max level %s%d) - reference accepts, library refused with 0x%x", i, lvl, cl, maxlevel > 0 ? "" : "unset/", maxlevel > 0 ? maxlevel : 255, res);
 				}
 				break;
 			case E_BAD:
-				if (!ok) vf_outcome("leaf:refused-badlevel");
-				else { vf_outcome("leaf:BADLEVEL-ACCEPTED"); FAIL("bad-level-accepted", "leaf #%d with level %d outside 0..255 accepted", i, lvl); }
+				if (!ok) OUTCOME("leaf:refused-badlevel");
+				else { OUTCOME("leaf:BADLEVEL-ACCEPTED"); FAIL("bad-level-accepted", "leaf #%d with level %d outside 0..255 accepted", i, lvl); }
 				break;
 			case E_MAX:
-				if (!ok) vf_outcome("leaf:refused-maxlevel");
-				else { vf_outcome("leaf:MAXLEVEL-ACCEPTED"); FAIL("maxlevel-leaf-accepted", "leaf #%d (level %d): root level after adding would be %s%d > maximum level %d, but the leaf was accepted", i, lvl, cfd >= 0 ? ">" : "", cfd >= 0 ? 255 : cl, maxlevel); }
+				if (!ok) OUTCOME("leaf:refused-maxlevel");
+				else { OUTCOME("leaf:MAXLEVEL-ACCEPTED"); FAIL("maxlevel-leaf-accepted", "leaf #%d (level %d): root level after adding would be %s%d > maximum level %d, but the leaf was accepted", i, lvl, cfd >= 0 ? ">" : "", cfd >= 0 ? 255 : cl, maxlevel); }
 				break;
 			case E_OVF:
-				if (!ok) vf_outcome(cfd >= 0 ? "leaf:refused-overflow-in-carry" : "leaf:refused-overflow-at-close");
-				else if (doomed) vf_outcome("leaf:accepted-into-unclosable-tree");
+				if (!ok) OUTCOME(cfd >= 0 ? "leaf:refused-overflow-in-carry" : "leaf:refused-overflow-at-close");
+				else if (doomed) OUTCOME("leaf:accepted-into-unclosable-tree");
 				else {
 					doomed = 1;
-					vf_outcome("leaf:OVERFLOW-ACCEPTED");
+					OUTCOME("leaf:OVERFLOW-ACCEPTED");
 					FAIL("overflow-leaf-accepted", "leaf #%d (level %d), no maximum level: the root level of the tree including this leaf would be %s (level arithmetic leaves 0..255) but the leaf was accepted%s", i, lvl,
 					        cfd >= 0 ? "> 255 during the carry" : "256 or more at close", cfd >= 0 ? "" : "; close can only fail and the leaves accepted before lose their proofs");
 				}
@@ -358,18 +361,18 @@ static void seq_body(const leafspec *sp, int n, int maxlevel, int alg, int leaf_
 	}
 
 	res = KSI_TreeBuilder_close(b);
-	vf_count("impl_calls", 1);
+	COUNT("impl_calls", 1);
 	vf_obs("close:%d", res == KSI_OK);
 	if (nacc == 0) {
 		/* nothing accepted: the statement does not speak about closing an empty builder */
-		vf_outcome("close:empty:%s", res == KSI_OK ? "ok" : "err");
+		OUTCOME("close:empty:%s", res == KSI_OK ? "ok" : "err");
 		if (res == KSI_OK && b->rootNode != NULL) FAIL("root-of-nothing", "close of a builder without leaves produced a root");
 	} else {
 		rnode R;
 		int rc = desync ? -3 : rf_close(&F, alg, &R);
 		if (res != KSI_OK) {
-			if (rc == -1) vf_outcome("close:err-root-level-beyond-255");    /* consequence of overflow-leaf-accepted above */
-			else { vf_outcome("close:FAILED"); FAIL("close-failed", "close failed with 0x%x although %d leaves were accepted and the reference root level is %d", res, nacc, rc == 0 ? R.level : -1); }
+			if (rc == -1) OUTCOME("close:err-root-level-beyond-255");    /* consequence of overflow-leaf-accepted above */
+			else { OUTCOME("close:FAILED"); FAIL("close-failed", "close failed with 0x%x although %d leaves were accepted and the reference root level is %d", res, nacc, rc == 0 ? R.level : -1); }
 		} else if (b->rootNode == NULL) {
 			FAIL("no-root", "close returned OK but there is no root node");
 		} else {
@@ -387,18 +390,18 @@ static void seq_body(const leafspec *sp, int n, int maxlevel, int alg, int leaf_
 				for (i = 0; i < n; i++) if (st.acc[i] && st.md[i] != NULL && b->rootNode->metaData == st.md[i]) { memcpy(root, st.leaf[i].b, st.leaf[i].n); root_len = st.leaf[i].n; }
 				if (root_len == 0) FAIL("no-root", "root node has neither a hash nor the metadata of an accepted leaf");
 			}
-			vf_outcome("close:ok");
+			OUTCOME("close:ok");
 			if (rc == 0) {
 				if (root_level != R.level || root_len != R.n || memcmp(root, R.b, R.n) != 0) {
-					vf_outcome("root:NOT-CANONICAL");
+					OUTCOME("root:NOT-CANONICAL");
 					FAIL("root-not-canonical", "%d accepted leaves: canonical merge gives level %d root %s, builder root level %d %s", nacc, R.level, vf_hex(R.b, R.n), root_level, vf_hex(root, root_len));
-				} else vf_outcome(nrefused ? "root:canonical-after-refusal" : "root:canonical");
+				} else OUTCOME(nrefused ? "root:canonical-after-refusal" : "root:canonical");
 			} else if (rc == -1) {
 				FAIL("close-beyond-255", "reference root level exceeds 255 but close succeeded with root level %d", root_level);
 			}
 			vf_obs("root:%d:%s", root_level, vf_hex(root, root_len));
 			if (root_len != 0) for (i = 0; i < n; i++) if (st.acc[i] && st.h[i] != NULL) check_proof(&st, i, root, root_len, root_level);
-			if (nrefused) vf_count("proofs_checked_after_refusal", nacc);
+			if (nrefused) COUNT("proofs_checked_after_refusal", nacc);
 		}
 	}
 
@@ -406,10 +409,10 @@ static void seq_body(const leafspec *sp, int n, int maxlevel, int alg, int leaf_
 	KSI_TreeBuilder_free(b);
 	for (i = 0; i < n; i++) { KSI_DataHash_free(st.dh[i]); KSI_MetaData_free(st.md[i]); }
 	if (vf_alloc_live != base) {
-		vf_outcome("mem:LEAK");
+		OUTCOME("mem:LEAK");
 		FAIL("leak", "%ld SDK blocks still live after freeing handles, builder and leaves (%d leaves, %d accepted, close %s)", vf_alloc_live - base, n, nacc, res == KSI_OK ? "ok" : "failed");
-	} else vf_outcome("mem:baseline");
-	vf_count("leaves_added", n);
+	} else OUTCOME("mem:baseline");
+	COUNT("leaves_added", n);
 }
 
 /* Does the sequence contain a refusal that happens in the middle of a carry (a merge at carry
@@ -442,75 +445,112 @@ static int predict_mid_carry(const leafspec *sp, int n, int maxlevel, int *at, i
 	return 0;
 }
 
+/* --- running a case body in a process of its own ---
+ * A full ASan report (three symbolized stack traces) costs ~0.1-0.2 s; the space holds thousands of
+ * cases that end in one. So the body first runs with the report suppressed: __asan_on_error (called
+ * by the ASan runtime when an error was detected, before anything is printed) writes the error
+ * class and the faulting pc and ends the process. The first time a (class, pc) pair is seen in this
+ * process the case is run once more with the full report, from which the signature
+ * crash:<class>:<first libksi function> is taken and remembered for that pair. */
+#if defined(__SANITIZE_ADDRESS__)
+#include <sanitizer/asan_interface.h>
+static int g_fast_report = 0;
+void __asan_on_error(void) {
+	if (g_fast_report) {
+		char b[200];
+		int k = snprintf(b, sizeof b, "C16FAST %s %p\n", __asan_get_report_description(), __asan_get_report_pc());
+		ssize_t r = write(2, b, (size_t)k);
+		(void)r;
+		_exit(99);
+	}
+}
+#else
+static int g_fast_report = 0;
+#endif
+
+/* returns the wait status; stderr of the body in buf */
+static int run_in_own_process(const leafspec *sp, int n, int maxlevel, int alg, int leaf_alg, int fast, char *buf, size_t cap) {
+	int pfd[2], st = 0;
+	pid_t pid;
+	size_t got = 0;
+	if (pipe(pfd) != 0) vf_harness_error("pipe");
+	fflush(NULL);
+	pid = fork();
+	if (pid < 0) vf_harness_error("fork");
+	if (pid == 0) {
+		close(pfd[0]);
+		dup2(pfd[1], 2);
+		close(pfd[1]);
+		alarm(100);
+		g_own_process = 1;
+		g_fast_report = fast;
+		if (!fast) g_silent = 1;             /* second run of the same case: report nothing twice */
+		seq_body(sp, n, maxlevel, alg, leaf_alg);
+		_exit(0);
+	}
+	close(pfd[1]);
+	for (;;) {
+		char tmp[4096];
+		ssize_t r = read(pfd[0], tmp, sizeof tmp);
+		if (r < 0 && errno == EINTR) continue;
+		if (r <= 0) break;
+		if (got + (size_t)r < cap) { memcpy(buf + got, tmp, (size_t)r); got += (size_t)r; }
+		else if (got < cap - 1) { size_t k = cap - 1 - got; memcpy(buf + got, tmp, k); got += k; }
+	}
+	buf[got] = 0;
+	close(pfd[0]);
+	while (waitpid(pid, &st, 0) < 0 && errno == EINTR) {}
+	return st;
+}
+
 static void run_seq(const leafspec *sp, int n, int maxlevel, int alg, int leaf_alg) {
-	int at = 0, depth = 0;
+	static struct { char key[120]; char sig[200]; } known[16];
+	static char buf[32768];
+	int at = 0, depth = 0, st;
 	if (!predict_mid_carry(sp, n, maxlevel, &at, &depth)) {
 		seq_body(sp, n, maxlevel, alg, leaf_alg);
 		vf_case_end(1);
 		return;
 	}
-	{
-		int pfd[2], st = 0;
-		pid_t pid;
-		char buf[16384];
-		size_t got = 0;
-		vf_count("cases_run_in_own_process", 1);
-		if (pipe(pfd) != 0) vf_harness_error("pipe");
-		fflush(NULL);
-		pid = fork();
-		if (pid < 0) vf_harness_error("fork");
-		if (pid == 0) {
-			close(pfd[0]);
-			dup2(pfd[1], 2);
-			close(pfd[1]);
-			alarm(100);
-			g_own_process = 1;
-			seq_body(sp, n, maxlevel, alg, leaf_alg);
-			_exit(0);
+	COUNT("cases_run_in_own_process", 1);
+	st = run_in_own_process(sp, n, maxlevel, alg, leaf_alg, 1, buf, sizeof buf);
+	if (WIFEXITED(st) && WEXITSTATUS(st) == 0) {
+		vf_obs("own-process:clean");
+		OUTCOME("midcarry:refused-cleanly");
+	} else if (WIFEXITED(st) && WEXITSTATUS(st) == 2 && !strstr(buf, "Sanitizer") && !strstr(buf, "runtime error")) {
+		vf_harness_error("case body reported a harness error in its own process");
+	} else {
+		char sig[200] = "", key[120] = "", *p, *q;
+		int ki = -1, i;
+		if (WIFEXITED(st) && WEXITSTATUS(st) == 99 && (p = strstr(buf, "C16FAST ")) != NULL) {
+			snprintf(key, sizeof key, "%.*s", (int)strcspn(p + 8, "\n"), p + 8);
+			for (i = 0; i < 16 && known[i].key[0]; i++) if (strcmp(known[i].key, key) == 0) ki = i;
+			if (ki >= 0) snprintf(sig, sizeof sig, "%s", known[ki].sig);
+			else st = run_in_own_process(sp, n, maxlevel, alg, leaf_alg, 0, buf, sizeof buf);
 		}
-		close(pfd[1]);
-		for (;;) {
-			char tmp[4096];
-			ssize_t r = read(pfd[0], tmp, sizeof tmp);
-			if (r < 0 && errno == EINTR) continue;
-			if (r <= 0) break;
-			if (got + (size_t)r < sizeof buf) { memcpy(buf + got, tmp, (size_t)r); got += (size_t)r; }
-			else if (got < sizeof buf - 1) { size_t k = sizeof buf - 1 - got; memcpy(buf + got, tmp, k); got += k; }
-		}
-		buf[got] = 0;
-		close(pfd[0]);
-		while (waitpid(pid, &st, 0) < 0 && errno == EINTR) {}
-		if (WIFEXITED(st) && WEXITSTATUS(st) == 0) {
-			vf_obs("own-process:clean");
-			vf_outcome("midcarry:refused-cleanly");
-		} else if (WIFEXITED(st) && WEXITSTATUS(st) == 2 && !strstr(buf, "Sanitizer") && !strstr(buf, "runtime error")) {
-			vf_harness_error("case body reported a harness error in its own process");
-		} else {
+		if (!sig[0]) {
 			/* same signature scheme as the runner: crash:<kind>:<first libksi function> */
-			char kind[80] = "", where[120] = "", *p, *q;
+			char kind[80] = "", where[100] = "";
 			if ((p = strstr(buf, "ERROR: AddressSanitizer: "))) {
 				p += strlen("ERROR: AddressSanitizer: ");
 				snprintf(kind, sizeof kind, "%.*s", (int)strcspn(p, " \n"), p);
 			} else if (strstr(buf, "runtime error: ")) snprintf(kind, sizeof kind, "ubsan");
 			else if (WIFSIGNALED(st) && WTERMSIG(st) == SIGALRM) snprintf(kind, sizeof kind, "hang");
 			else snprintf(kind, sizeof kind, "%s", WIFSIGNALED(st) ? "signal" : "abort");
-			/* first stack frame inside the library */
-			for (p = buf; (p = strstr(p, "/src/ksi/")) != NULL; p++) {
+			for (p = buf; (p = strstr(p, "/src/ksi/")) != NULL; p++) {      /* first stack frame inside the library */
 				char *ls = p;
 				while (ls > buf && ls[-1] != '\n') ls--;
 				q = strstr(ls, " in ");
 				if (q && q < p) { q += 4; snprintf(where, sizeof where, "%.*s", (int)strcspn(q, " \n"), q); break; }
 			}
-			{
-				char sig[240];
-				snprintf(sig, sizeof sig, "crash:%s:%s", kind, where[0] ? where : "?");
-				vf_obs("own-process:%s", sig);
-				vf_outcome("midcarry:CRASH");
-				FAIL(sig, "leaf #%d (level %d) must be refused: its carry fails at merge depth %d (level would exceed 255) after %d merge(s) succeeded; the process ended abnormally (status 0x%x) while refusing it", at, sp[at].level, depth, depth, st);
-			}
+			snprintf(sig, sizeof sig, "crash:%s:%s", kind, where[0] ? where : "?");
+			if (key[0]) for (i = 0; i < 16; i++) if (!known[i].key[0]) { snprintf(known[i].key, sizeof known[i].key, "%s", key); snprintf(known[i].sig, sizeof known[i].sig, "%s", sig); break; }
 		}
-		vf_case_end(1);
+		vf_obs("own-process:%s", sig);
+		OUTCOME("midcarry:CRASH");
+		FAIL(sig, "leaf #%d (level %d) must be refused: its carry fails at merge depth %d (level would exceed 255) after %d merge(s) succeeded; the process ended abnormally while refusing it", at, sp[at].level, depth, depth);
 	}
+	vf_case_end(1);
 }
 
 /* ---------------------------------------------------------------------------------- enumeration */
@@ -561,6 +601,9 @@ static void part_uniform(void) {
 /* (x) mixed levels: all sequences x all maximum-level settings */
 static void part_mixed(void) {
 	int maxlen = VF_THOROUGH ? 6 : 5, len, mi, i;
+	/* the maximum-level setting is the OUTER loop: cases of one setting are consecutive and therefore
+	 * spread evenly over the shards (the expensive ones all have "no maximum level") */
+	for (mi = 0; mi < NMAXS; mi++)
 	for (len = 1; len <= maxlen; len++) {
 		long total = 1, idx;
 		for (i = 0; i < len; i++) total *= NLEVELS;
@@ -570,11 +613,9 @@ static void part_mixed(void) {
 			long x = idx;
 			for (i = 0; i < len; i++) { sp[i].level = LEVELS[x % NLEVELS]; sp[i].meta = 0; x /= NLEVELS; }
 			seq_name(name, sizeof name, sp, len);
-			for (mi = 0; mi < NMAXS; mi++) {
-				if (!vf_case_begin("x:M%d:%s", MAXS[mi], name)) continue;
-				if (len == 4 && idx == 1000 && mi == 0) vf_sample("x: leaf levels %s, no maximum level: accept/refuse per leaf, canonical root, every accepted leaf's chain", name);
-				run_seq(sp, len, MAXS[mi], RH_SHA256, RH_SHA256);
-			}
+			if (!vf_case_begin("x:M%d:%s", MAXS[mi], name)) continue;
+			if (len == 4 && idx == 1000 && mi == 0) vf_sample("x: leaf levels %s, no maximum level: accept/refuse per leaf, canonical root, every accepted leaf's chain", name);
+			run_seq(sp, len, MAXS[mi], RH_SHA256, RH_SHA256);
 		}
 	}
 }
@@ -586,8 +627,11 @@ static void part_meta(void) {
 	int maxlen = VF_THOROUGH ? 5 : 4, len, i, mi;
 	const int *lv = VF_THOROUGH ? LEVELS : QL;
 	int nlv = VF_THOROUGH ? NLEVELS : 4;
+	for (mi = 0; mi < 3; mi++)          /* outer loop: see part_mixed */
 	for (len = 1; len <= maxlen; len++) {
 		long total = 1, idx;
+		/* maximum-level settings for the short sequences only */
+		if (mi > 0 && len > (VF_THOROUGH ? 4 : 3)) continue;
 		for (i = 0; i < len; i++) total *= nlv;
 		for (idx = 0; idx < total; idx++) {
 			int mask;
@@ -597,13 +641,9 @@ static void part_meta(void) {
 				long x = idx;
 				for (i = 0; i < len; i++) { sp[i].level = lv[x % nlv]; sp[i].meta = (mask >> i) & 1; x /= nlv; }
 				seq_name(name, sizeof name, sp, len);
-				for (mi = 0; mi < 3; mi++) {
-					/* maximum-level settings for the short sequences only (thorough: len <= 4) */
-					if (mi > 0 && len > (VF_THOROUGH ? 4 : 3)) continue;
-					if (!vf_case_begin("m:M%d:%s", MM[mi], name)) continue;
-					if (len == 3 && idx == 5 && mask == 2 && mi == 0) vf_sample("m: leaves %s ('m' = metadata leaf): metadata siblings hashed by their TLV payload", name);
-					run_seq(sp, len, MM[mi], RH_SHA256, RH_SHA256);
-				}
+				if (!vf_case_begin("m:M%d:%s", MM[mi], name)) continue;
+				if (len == 3 && idx == 5 && mask == 2 && mi == 0) vf_sample("m: leaves %s ('m' = metadata leaf): metadata siblings hashed by their TLV payload", name);
+				run_seq(sp, len, MM[mi], RH_SHA256, RH_SHA256);
 			}
 		}
 	}
